@@ -842,6 +842,21 @@ def _run(ctx):
     tcases, obad1 = scratch_cases(ctx, w, n_tree, dag=False)
     gcases, obad2 = scratch_cases(ctx, w, n_dag, dag=True)
     bad += obad1 + obad2
+    # the witness of last_registered_wins_any_tree_refuted, replayed on the implementation
+    AFc = w.alias_mod.AliasedFactory
+    wR = type("C08WitnessR", (AFc,), {})
+    wB = type("C08WitnessB", (wR,), {})
+    wC = type("C08WitnessC", (wR,), {"aliases": {"x"}})
+    wD = type("C08WitnessD", (wB,), {"aliases": {"x"}})
+    wid = {wR: 0, wB: 1, wC: 2, wD: 3}
+    wgot = wid.get(type(wR.from_alias("x")), -1)
+    wtree = (0, [], [(1, [], [(3, ["x"], [])]), (2, ["x"], [])])
+    tcases.append(("(%s, [(0, \"x\", %s)])" % (ctree_term(wtree), copt(wgot)),
+                   dict(kind="tree", tree=wtree, queries=[(0, "x", wgot)], note="witness late_subclass_tree")))
+    ctx.case(tcases[-1][1])
+    ctx.count("from_alias:witness-late-subclass:%s" % wgot)
+    del wR, wB, wC, wD, wid
+    gc.collect()
     if ok_corr:
         for name, cases, checker in (("trees", tcases, "tree_case_ok"), ("trees_as_graphs", tcases, "tree_as_graph_ok"), ("graphs", gcases, "graph_case_ok")):
             # negative control: a perturbed expectation must be reported
@@ -1000,8 +1015,10 @@ def _run(ctx):
                     break
             ctx.cov["traces_validated_against_impl"] += len(terms) - len(mism)
             for k in real:
-                ctx.fail("alias_factory_subclass_from_arg: implementation and %s disagree: %s" % (
-                    "heap model" if name.endswith("_heap") else "model", json.dumps(objs[k])[:600]),
+                what = ("nested configuration: the alias-built object of the model, its explicitly built object and the "
+                        "implementation's object are not all equal" if objs[k]["kind"] == "config" and not name.endswith("_heap")
+                        else "alias_factory_subclass_from_arg: implementation and %s disagree" % ("heap model" if name.endswith("_heap") else "model"))
+                ctx.fail("%s: %s" % (what, json.dumps(objs[k])[:600]),
                          dict(case=objs[k], model_file="HeapModel.v" if name.endswith("_heap") else "Model.v"), kind="correspondence")
         # negative control for the value comparator
         if arg_terms:
